@@ -38,6 +38,12 @@ prop = Prop(
 prop.engine = "detloop"
 
 
+def _survey(fn):
+    from vf import recovery_kit as K
+
+    return K.survey(fn)
+
+
 def _strategy():
     from vf import recovery_kit as K
 
@@ -52,11 +58,11 @@ def oracle(case, rec, res, base, K):
     if res.deadlock is not None:
         raise Violation(f"C16:deadlock:{view.deadlock_kind()}", f"plan {res.plan}\npending tasks at quiescence:\n{res.deadlock}\nlog tail: {res.run.events[-12:]}")
     if res.raised is not None:
-        raise Violation("C16:raised", f"{res.raised}: {res.raised_msg}; plan {res.plan}; versions {res.versions}; limit {res.max_retries}")
+        raise Violation("C16:raised" + (":loop" if res.shape.kind == "loop" else ""), f"{res.raised}: {res.raised_msg}; plan {res.plan}; versions {res.versions}; limit {res.max_retries}")
     if res.output_tokens != base["tokens"]:
         raise Violation("C16:output-token-count", f"{res.output_tokens} output tokens, failure-free run has {base['tokens']}")
     if res.output != base["output"] or res.output != ref:
-        raise Violation("C16:output-differs", f"with failures {res.output!r}\nfailure-free {base['output']!r}\nreference {ref!r}\nplan {res.plan}")
+        raise Violation("C16:" + K.output_kind(res.output, ref), f"with failures {res.output!r}\nfailure-free {base['output']!r}\nreference {ref!r}\nplan {res.plan}")
     if res.unjustified_lost:
         raise Violation("C16:output-file-missing", f"{res.unjustified_lost} not on disk although no deletion followed their production")
     if not res.terminated_ok:
@@ -73,11 +79,69 @@ def _scenarios_strategy():
 
 
 @prop.given("scenarios", _scenarios_strategy, quick=1500, thorough=50000)
+@_survey
 async def check_scenarios(case, rec):
     from vf import recovery_kit as K
 
     shape = K.Shape(case["shape"])
     plan = K.resolve_plan(shape, case["plan"])
     base = await K.baseline(case["shape"])
-    res = await K.run_scenario(case["shape"], plan, max_retries=K.safe_retries(shape, plan), schedule=case["schedule"])
+    res = await K.run_scenario(case["shape"], plan, max_retries=K.safe_retries(shape, plan), schedule=case["schedule"], wait_order=case.get("wait_order", 0))
+    import os
+    oracle(case, rec, res, base, K)
+
+
+# ---- bounded-exhaustive tier: all single failure points and all pairs ----------------------------
+
+
+def _points(shape_desc):
+    from vf import recovery_kit as K
+
+    shape = K.Shape(shape_desc)
+    pts = []
+    for si, step in enumerate(shape.steps):
+        for ti, _ in enumerate(shape.tags(step)):
+            for phase in K.PHASES:
+                for kind in K.KINDS:
+                    pts.append([si, ti, phase, kind, 1])
+    return pts
+
+
+def _enumerate(tier):
+    import itertools
+
+    shapes = [
+        {"kind": "pipeline", "n": 1, "token": "file", "ndep": 1},
+        {"kind": "pipeline", "n": 2, "token": "file", "ndep": 1},
+        {"kind": "scatter", "width": 2, "pre": 0, "inner": 1, "post": 0, "token": "file", "ndep": 1},
+    ]
+    if tier == "thorough":
+        shapes += [
+            {"kind": "pipeline", "n": 3, "token": "file", "ndep": 1},
+            {"kind": "pipeline", "n": 2, "token": "list", "ndep": 1},
+            {"kind": "pipeline", "n": 2, "token": "primitive", "ndep": 1},
+            {"kind": "scatter", "width": 1, "pre": 1, "inner": 1, "post": 1, "token": "file", "ndep": 1},
+            {"kind": "scatter", "width": 2, "pre": 1, "inner": 1, "post": 1, "token": "file", "ndep": 1},
+            {"kind": "scatter", "width": 3, "pre": 1, "inner": 1, "post": 1, "token": "file", "ndep": 1},
+            {"kind": "scatter", "width": 3, "pre": 0, "inner": 2, "post": 0, "token": "file", "ndep": 1},
+        ]
+    for desc in shapes:  # small first
+        pts = _points(desc)
+        for p in pts:
+            yield {"shape": desc, "plan": [p], "schedule": [], "wait_order": 0}
+        for p, q in itertools.combinations(pts, 2):
+            if p[:3] == q[:3]:
+                continue  # the same (job, phase) with both kinds is one failure point
+            yield {"shape": desc, "plan": [p, q], "schedule": [], "wait_order": 0}
+
+
+@prop.enumerated("all-single-and-paired-failure-points", _enumerate)
+@_survey
+async def check_enumerated(case, rec):
+    from vf import recovery_kit as K
+
+    shape = K.Shape(case["shape"])
+    plan = K.resolve_plan(shape, case["plan"])
+    base = await K.baseline(case["shape"])
+    res = await K.run_scenario(case["shape"], plan, max_retries=K.safe_retries(shape, plan), schedule=case["schedule"], wait_order=0)
     oracle(case, rec, res, base, K)
